@@ -96,32 +96,63 @@ def _verify_one(job):
     return out
 
 
-class _ReplayTimeout(BaseException):
-    pass
-
-
 def _with_deadline(seconds, fn):
-    """a replay runs REAL code on rebuilt inputs: real sockets / pollers may block for ever (seen: Listener._recv_one on a rebuilt
-    poller).  Past the deadline the replay is 'not-evaluable' - never a verdict."""
-    import signal
-
-    def late(*_):
-        raise _ReplayTimeout()
+    """a replay runs REAL code on rebuilt inputs: it may block for ever in a C-level call (a real poller, getfqdn without a network, a spawned
+    process) where no Python-level alarm can reach it.  It therefore runs in a forked child that is killed at the deadline; its verdict comes back
+    as JSON through a pipe.  Past the deadline (or if the child dies) the replay is 'not-evaluable' - never a verdict."""
+    import select
+    r, w = os.pipe()
+    pid = os.fork()
+    if pid == 0:
+        code = 0
+        try:
+            os.close(r)
+            try:
+                res = fn()
+            except BaseException as e:  # noqa
+                res = {"verdict": "not-evaluable", "reason": f"{type(e).__name__}: {e}"}
+            data = json.dumps(res, default=str).encode()
+            os.write(w, len(data).to_bytes(8, "big"))
+            off = 0
+            while off < len(data):
+                off += os.write(w, data[off:off + 65536])
+        except BaseException:  # noqa
+            code = 1
+        finally:
+            os._exit(code)
+    os.close(w)
+    buf = b""
+    deadline = time.time() + seconds
     try:
-        prev = signal.signal(signal.SIGALRM, late)
-    except ValueError:  # not in the main thread of this process: no guard available
-        return fn()
-    t0 = time.time()
-    outer = signal.alarm(seconds)  # seconds left on an enclosing alarm (the check's watchdog), 0 if none
-    try:
-        return fn()
-    except _ReplayTimeout:
-        return {"verdict": "not-evaluable", "reason": f"replay did not finish within {seconds}s (blocking external call)"}
+        while True:
+            left = deadline - time.time()
+            if left <= 0:
+                break
+            ready, _, _ = select.select([r], [], [], left)
+            if not ready:
+                break
+            chunk = os.read(r, 1 << 20)
+            if not chunk:
+                break
+            buf += chunk
+            if len(buf) >= 8 and len(buf) - 8 >= int.from_bytes(buf[:8], "big"):
+                break
     finally:
-        signal.alarm(0)
-        signal.signal(signal.SIGALRM, prev)
-        if outer:
-            signal.alarm(max(1, int(outer - (time.time() - t0))))
+        os.close(r)
+        try:
+            os.kill(pid, 9)
+        except OSError:
+            pass
+        try:
+            os.waitpid(pid, 0)
+        except OSError:
+            pass
+    if len(buf) >= 8 and len(buf) - 8 >= int.from_bytes(buf[:8], "big"):
+        try:
+            return json.loads(buf[8:8 + int.from_bytes(buf[:8], "big")].decode())
+        except Exception:  # noqa
+            pass
+    return {"verdict": "not-evaluable", "reason": f"replay did not finish within {seconds}s (blocking external call) or its process died"}
 
 
 def pyvc_run(targets, gen_sources=None, timeout_ms=10000, jobs=None, replay=True):
